@@ -112,6 +112,10 @@ def run_case(args):
         if list(sorted(got)) != list(sorted(case)):
             p.failure("C18 result keys differ from input names", dict(rep, got=sorted(got), want=sorted(case)))
             continue
+        if list(got) != list(case):
+            # sequential parsing yields the entries in input order; the compile loop iterates the mapping
+            first = next(i for i, (x, y) in enumerate(zip(got, case)) if x != y)
+            p.failure("C18 entry order differs from sequential parse", dict(rep, position=first, got=list(got)[first], want=list(case)[first]))
         for name, parts in case.items():
             g = got[name]
             w = want[name]
